@@ -72,15 +72,19 @@ def gen_case(rng):
                 continue
             f["undefs"].append((n, rng.random() < 0.3))
     # for each flag, whole-archive members are non-optional
+    # (the modifiers are regions, see build(): a --start-lib group that follows a --whole-archive archive is still inside
+    #  the region, and its objects are members "in a whole-archive region")
+    whole = False
     for it in items:
         if it[0] == "obj":
             files[it[1][0]]["optional"] = False
         elif it[0] == "ar":
+            whole = bool(it[2])
             for m in it[1]:
                 files[m]["optional"] = not it[2]
         elif it[0] == "lib":
             for m in it[1]:
-                files[m]["optional"] = True
+                files[m]["optional"] = not whole
         else:
             files[it[1]]["optional"] = it[2]
     return files, items, multi
@@ -132,6 +136,10 @@ def build(d, files, items, multi):
         paths[i] = f"{d}/f{i}.o"
     argv = []
     k = 0
+    # the two modifiers are regions: a flag is written only where the state an archive (--whole-archive) or a shared
+    # library (--as-needed) needs differs from the current one, so shared libraries sit inside --whole-archive regions
+    # and archives inside --as-needed regions; each modifier must affect its own kind of input only
+    whole = asneeded = False
     for it in items:
         if it[0] == "obj":
             argv.append(paths[it[1][0]])
@@ -139,13 +147,19 @@ def build(d, files, items, multi):
             k += 1
             ap = f"{d}/lib{k}.a"
             sh(["ar", "rcsT" if it[3] else "rcs", ap] + [paths[m] for m in it[1]], check=True)
-            argv += (["--whole-archive", ap, "--no-whole-archive"] if it[2] else [ap])
+            if bool(it[2]) != whole:
+                whole = bool(it[2])
+                argv.append("--whole-archive" if whole else "--no-whole-archive")
+            argv.append(ap)
         elif it[0] == "lib":
             argv += ["--start-lib"] + [paths[m] for m in it[1]] + ["--end-lib"]
         else:
             sp = f"{d}/libso{it[1]}.so"
             sh(["ld", "-shared", "-soname", f"libso{it[1]}.so", "-o", sp, paths[it[1]], "--allow-shlib-undefined"], check=True)
-            argv += (["--as-needed", sp, "--no-as-needed"] if it[2] else [sp])
+            if bool(it[2]) != asneeded:
+                asneeded = bool(it[2])
+                argv.append("--as-needed" if asneeded else "--no-as-needed")
+            argv.append(sp)
     return argv
 
 
